@@ -15,7 +15,7 @@ Record lcase := LCase { lc_e : lexpr; lc_impl : limpl }.
 
 Definition lfuel (e : lexpr) : nat := (max_anon_function_depth + 2) * (height e + 2).
 
-Definition lrun (e : lexpr) : lres := fst (leval_limited (lfuel e) (LState 0 0) ENil e).
+Definition lrun (e : lexpr) : lres := fst (leval_limited (lfuel e) lstate0 ENil e).
 
 Definition lcheck (c : lcase) : bool :=
   match lrun (lc_e c), lc_impl c with
